@@ -243,6 +243,45 @@ fn si_event(p: &J) -> Option<J> {
     Some(json!({"ev": "Post", "before": before, "after": after, "R": r, "A": a, "D": d}))
 }
 
+// ---------------------------------------------------------------------------------------------
+// abstraction of the `load` / `names` observations into the records of spec/Names.tla:
+// names are numbers: -1 none, n = table_n (n < 100), 100.. = the other names in order of appearance
+
+fn nm_code(name: &J, table: &mut Vec<String>) -> i64 {
+    let Some(s) = name.as_str() else { return -1 };
+    if let Some(n) = s.strip_prefix("table_").and_then(|d| d.parse::<i64>().ok()) {
+        if (0..100).contains(&n) && s == format!("table_{n}") {
+            return n;
+        }
+    }
+    if let Some(i) = table.iter().position(|x| x == s) {
+        return 100 + i as i64;
+    }
+    table.push(s.to_string());
+    100 + table.len() as i64 - 1
+}
+
+fn nm_event(load: &J, names: &J) -> J {
+    let mut table: Vec<String> = vec![];
+    let loaded: Vec<&J> = load["decls"].as_array().map(|a| a.iter().collect()).unwrap_or_default();
+    let mut ids: Vec<i64> = vec![];
+    let mut decls: Vec<J> = vec![];
+    for d in names["decls"].as_array().into_iter().flatten() {
+        let id = d[0].as_i64().unwrap_or(-1);
+        let l = loaded.iter().find(|x| x[0].as_i64() == Some(id));
+        let (n0, ext) = match l { Some(x) => (nm_code(&x[1], &mut table), x[2].as_bool().unwrap_or(false)), None => (-1, false) };
+        ids.push(id);
+        decls.push(json!({"id": id, "name": n0, "extern": ext, "out": nm_code(&d[1], &mut table)}));
+    }
+    let selects: Vec<J> = names["selects"].as_array().into_iter().flatten().map(|s| {
+        json!(s.as_array().into_iter().flatten().map(|i| {
+            let src = ids.iter().position(|x| Some(*x) == i["source"].as_i64()).map(|p| p as i64 + 1).unwrap_or(0);
+            json!({"alias": nm_code(&i["hint"], &mut table), "src": src, "out": nm_code(&i["name"], &mut table)})
+        }).collect::<Vec<J>>())
+    }).collect();
+    json!({"ev": "Names", "decls": decls, "selects": selects, "names": table})
+}
+
 fn num(e: &sqlparser::ast::Expr) -> i64 {
     e.to_string().trim().parse::<i64>().unwrap_or(-2)
 }
@@ -330,9 +369,14 @@ pub fn main(args: &[String]) -> i32 {
             };
             writeln!(out, "{}", json!({"ev": "Reset", "id": rec["id"], "dialect": d, "outcome": outcome, "detail": detail})).unwrap();
             let evs: Vec<(String, String)> = EVENTS.with(|e| e.borrow().clone());
+            let mut last_load = J::Null;
             for (point, payload) in evs {
                 let p: J = serde_json::from_str(&payload).unwrap_or(J::Null);
                 match point.as_str() {
+                    "load" => last_load = p,
+                    "names" => {
+                        writeln!(out, "{}", nm_event(&last_load, &p)).unwrap();
+                    }
                     "split" => {
                         // From / Join: the columns their relation instance provides
                         let inst = |t: &J, a: &mut J| {
